@@ -2,7 +2,8 @@
 From V.Lib Require Import Base.
 From Coq Require Import String.
 From Coq Require Import Permutation.
-From V.C13 Require Import Model Spec Corr Wf Proofs Proofs2 Proofs3.
+From V.C13 Require Import Model Spec Corr Wf Proofs Proofs2 Proofs3 Proofs4 Proofs5 Bridge Extract Postcard PostcardProofs.
+From V.Gen Require Import C13Wire.
 From V.Gen Require Import C13Schema.
 Local Open Scope Z_scope.
 
@@ -20,7 +21,7 @@ Proof. exact merge_idem. Qed.
 
 (** every field either input carried is in the result (information order [le]) *)
 Theorem C13_merge_keeps : forall k fa fb a b c,
-  typed k a = true -> typed k b = true ->
+  shaped k a = true -> shaped k b = true ->
   merge fa fb k a b = Some c -> le k a c = true /\ le k b c = true.
 Proof. exact merge_keeps. Qed.
 
@@ -72,6 +73,61 @@ Theorem C13_global_transparent_faithful : forall n,
   faithful_kind n S_transparent = lawful_kind n S_transparent.
 Proof. exact (fun n => conj (faithful_is_lawful n S_global eq_refl) (faithful_is_lawful n S_transparent eq_refl)). Qed.
 
+(** ** The laws for the code's merge of whole PCZTs ([M n] = roles/combiner [merge] with the
+    regenerated schema), on well-shaped copies of equal shielded shape ([same_len]) *)
+
+(** the code's merge — including the hand-transcribed bsk / value_sum / length rules of the
+    Sapling and Orchard [Bundle::merge] — IS the lawful reference merge *)
+Theorem C13_pczt_merge_is_reference : forall n a b,
+  shaped (Kl n) a = true -> shaped (Kl n) b = true -> same_len a b = true ->
+  M n a b = ref_merge S_global S_transparent S_sapling S_orchard n a b.
+Proof. exact gen_pczt_is_ref. Qed.
+
+Theorem C13_pczt_merge_comm : forall n a b,
+  shaped (Kl n) a = true -> shaped (Kl n) b = true -> same_len a b = true -> M n a b = M n b a.
+Proof. exact gen_pczt_merge_comm. Qed.
+
+Theorem C13_pczt_merge_idem : forall n a, typed (Kl n) a = true -> M n a a = Some a.
+Proof. exact gen_pczt_merge_idem. Qed.
+
+Theorem C13_pczt_merge_keeps : forall n a b c,
+  shaped (Kl n) a = true -> shaped (Kl n) b = true -> same_len a b = true ->
+  M n a b = Some c -> le (Kl n) a c = true /\ le (Kl n) b c = true.
+Proof. exact gen_pczt_merge_keeps. Qed.
+
+Theorem C13_pczt_merge_conflict : forall n a b,
+  shaped (Kl n) a = true -> shaped (Kl n) b = true -> same_len a b = true ->
+  (M n a b <> None <-> compat (pflags a) (pflags b) (Kl n) a b = true).
+Proof. exact gen_pczt_merge_conflict. Qed.
+
+Theorem C13_pczt_merge_assoc : forall n a b c,
+  shaped (Kl n) a = true -> shaped (Kl n) b = true -> shaped (Kl n) c = true ->
+  same_len a b = true -> same_len b c = true ->
+  obind (M n a b) (fun x => M n x c) = obind (M n b c) (fun y => M n a y).
+Proof. exact gen_pczt_merge_assoc. Qed.
+
+(** [Combiner::combine] on copies of one shielded shape [L] is invariant under permutation *)
+Theorem C13_pczt_combine_perm : forall n L l l',
+  Forall (okP n L) l -> Permutation l l' -> combine_with (M n) l = combine_with (M n) l'.
+Proof. exact gen_pczt_combine_perm. Qed.
+
+(** grouping: every nesting of [Combiner] calls (without an empty call) over copies of one shielded
+    shape evaluates to the plain left fold over its leaves *)
+Theorem C13_pczt_grouping : forall n L P, Forall (okP n L) P -> forall e,
+  wf_expr e = true -> Forall (fun i => (i < List.length P)%nat) (leaves e) ->
+  eval (M n) P e = F1 n (map (party P) (leaves e)).
+Proof. exact gen_eval_flat. Qed.
+
+(** ** Bridge (combine cases): on a well-formed case whose parties have one shielded shape,
+    agreement of the implementation with the model implies the property on the implementation's
+    own results (no panic; order and grouping independence; idempotence; success iff compatible;
+    every field kept) *)
+Theorem C13_combine_agree_implies_property : forall ps tbl rs,
+  wf_case (CCombine ps tbl rs) = true -> known_class (CCombine ps tbl rs) = 0%N ->
+  uniform_case (CCombine ps tbl rs) = true ->
+  run_case (CCombine ps tbl rs) = true -> prop_case (CCombine ps tbl rs) = true.
+Proof. exact (fun ps tbl rs W _ U R => combine_bridge ps tbl rs W U R). Qed.
+
 (** the byte arithmetic of [Global::merge] on [tx_modifiable] is the bit-wise merge
     (bits 0, 1, 7 towards false, bit 2 towards true, bits 3-6 must be zero) *)
 Theorem C13_bits_merge_bitwise : forall a b, 0 <= a < 256 -> 0 <= b < 256 ->
@@ -103,6 +159,24 @@ Theorem C13_roles_write_outside_effects : forall v6 role p,
   role_may_write v6 role p = true -> allowed (fun q => mem_path q (eff_paths v6)) p = true.
 Proof. exact role_write_allowed. Qed.
 
+(** ** The transaction described ([tx_of]: transcription of [Pczt::extract_tx_data] with the
+    [extract_effects] closures; agrees with [Pczt::into_effects] on every generated PCZT) *)
+
+(** the extracted transaction has exactly the effects of the PCZT: it is a function of the effecting
+    fields alone (blanking every other field does not change it) *)
+Theorem C13_extract_effects : forall p, tx_of (txfields p) = tx_of p.
+Proof. exact tx_of_txfields. Qed.
+Theorem C13_same_effects_same_tx : forall p q, txfields p = txfields q -> tx_of p = tx_of q.
+Proof. exact same_fields_same_tx. Qed.
+(** every field the extraction reads is in the list of effecting fields the roles must not write *)
+Theorem C13_tx_fields_are_effects :
+  forallb (fun p => mem_path p (eff_paths false ++ eff_resolvable)) tx_paths = true.
+Proof. exact tx_paths_are_effects. Qed.
+(** a step that writes outside those fields leaves the described transaction unchanged *)
+Theorem C13_role_preserves_tx : forall a b,
+  forallb (allowed (fun p => mem_path p tx_paths)) (diff_paths pczt_schema [] a b) = true -> tx_of a = tx_of b.
+Proof. exact role_preserves_tx. Qed.
+
 (** ** Encoding version *)
 
 (** the older encoding is chosen exactly when it can represent the content *)
@@ -117,6 +191,36 @@ Proof. exact roundtrip_exact. Qed.
     written as v1 and read back with the zero anchor (known finding C13-roundtrip-anchor) *)
 Theorem C13_roundtrip_refuted : exists p, wf_tree p = true /\ fst (serialize_parse p) = 1%N /\ snd (serialize_parse p) <> p.
 Proof. exact roundtrip_refuted. Qed.
+
+(** ** The byte layer (postcard 1.1 + the PCZT header), for the wire shapes regenerated from the
+    Rust type declarations of [v1::Pczt] and [v2::Pczt] *)
+
+(** decoding what was encoded gives the value back and leaves the rest of the input, for every
+    wire shape whose sequence elements occupy at least one byte and every value the shape admits *)
+Theorem C13_postcard_roundtrip : forall w, wf_shape w = true ->
+  forall v bs rest, enc w v = Some bs -> dec w (bs ++ rest) = Some (v, rest).
+Proof. exact enc_dec. Qed.
+
+(** varints: the loop of [try_take_varint_*] (accumulate [carry << 7 i]) is the recursive decoder *)
+Theorem C13_varint_loop : forall fuel i acc lastmax bs,
+  dec_varint_loop fuel i acc lastmax bs =
+  match dec_varint fuel lastmax bs with Some (v, r) => Some (acc + v * 2 ^ (7 * i), r)%N | None => None end.
+Proof. exact dec_varint_loop_eq. Qed.
+
+(** [Pczt::parse] of what [v1::Pczt::serialize] / [v2::Pczt::serialize] wrote is the same serde
+    value and version *)
+Theorem C13_pczt_bytes_roundtrip : forall ver v bs,
+  serialize_wire W_v1 W_v2 ver v = Some bs -> parse_wire W_v1 W_v2 bs = Ok (ver, v).
+Proof. exact (fun ver v bs => parse_serialize_wire W_v1 W_v2 ver v bs eq_refl eq_refl). Qed.
+
+(** parsing never panics: every byte string is answered by a value or by one of
+    [TooShort | NotPczt | UnknownVersion | Invalid] *)
+Theorem C13_parse_total : forall bs, parse_wire W_v1 W_v2 bs <> Panic.
+Proof. exact (parse_wire_total W_v1 W_v2). Qed.
+Theorem C13_parse_header_errors : forall bs,
+  ((List.length bs < 8)%nat -> parse_wire W_v1 W_v2 bs = Err TooShort) /\
+  ((8 <= List.length bs)%nat -> firstn 4 bs <> MAGIC -> parse_wire W_v1 W_v2 bs = Err NotPczt).
+Proof. exact (parse_wire_errors W_v1 W_v2). Qed.
 
 (** ** Outside the domain: copies of different shielded shape *)
 
